@@ -398,7 +398,8 @@ def _exh_code(ops):
     return "".join(o["op"] + (str(o["g"]) + o["part"][0] if o["op"] in "wd" else "") for o in ops)
 
 
-def fam_exhaustive_par(tier, tag, variants=("plain", "backing", "special", "backing_short"), parn=None, seeds=(1, 2, 3), sweep=0, sample=None, seed=1):
+def fam_exhaustive_par(tier, tag, variants=("plain", "backing", "special", "backing_short"), parn=None, seeds=(1, 2, 3), sweep=0, sample=None, seed=1,
+                       probe=False):
     """concurrent small scope (spec/GenOps.tla, EmitPar): every multiset of two
     (thorough: also three) overlapping operations on two guest clusters, after
     every single-operation prefix, on three image variants, under several
@@ -420,6 +421,9 @@ def fam_exhaustive_par(tier, tag, variants=("plain", "backing", "special", "back
         for v in variants:
             for h in hs:
                 steps = [_exh_step(o) for o in h["pre"]] + [{"op": "par", "ops": [_exh_step(o) for o in h["par"]]}]
+                if probe:
+                    # harness-side oracle for schedule sweeps: flag clear => a reopened device reads the same
+                    steps.append({"op": "probe"})
                 steps += [rd, {"op": "flush"}, {"op": "fsync"}, rd, {"op": "reopen"}, rd]
                 for sd in seeds:
                     out.append(S.mk(f"{tag}-{v}-{_exh_code(h['pre'])}_{_exh_code(h['par'])}-s{sd}", geo, imgs[v], steps, sample_flag=True,
@@ -478,6 +482,38 @@ def fam_outage(tier, seed, tag, nruns):
             steps = pre + [{"op": "fail_from", "nth": kk}, {"op": "flush"}, {"op": "recover", "retries": 4}] + rd + \
                     [{"op": "flush"}, {"op": "reopen"}] + rd
             out.append(S.mk(f"{tag}-{i}-o{kk}", geo, images, steps))
+    return out
+
+
+def fam_park(tier, tag, variants=("plain", "backing", "special"), nths=None, seed=1, probe=False):
+    """park schedules for the pairs of spec/GenOps.tla: the first call of the pair
+    runs alone until n of its backend requests have completed and it waits for the
+    next one, the second call then runs as far as it gets, then both finish - for
+    every n, both orders.  (The schedules that random choice practically never
+    produces: one call entirely inside one await of the other.)"""
+    if 2 not in _EXHP:
+        _EXHP[2] = Q.tlc_enumerate("GenOps.tla", cfg="GenOpsPar.cfg", env={"DEPTH": "0", "PARN": "2"}, workers=1, timeout=1800)[0]
+    geo = dict(cb=10, ro=4, bsb=9, vclusters=4, params={"l2": [9, 1024], "rb": [9, 1024]})
+    imgs = _exh_images()
+    rd = {"op": "read", "gb": 0, "n": 8}
+    nths = nths or (range(0, 12) if tier != "quick" else range(0, 12))
+    keep_pre = {"", "w0f", "w1ff", "w0bk", "w1hk"}
+    out = []
+    for v in variants:
+        for h in _EXHP[2]:
+            if _exh_code(h["pre"]) not in keep_pre:
+                continue
+            if all(o["op"] in "fskc" for o in h["par"]) or any(o["op"] == "s" for o in h["par"]):
+                continue
+            orders = [h["par"], list(reversed(h["par"]))] if h["par"][0] != h["par"][1] else [h["par"]]
+            for oi, par in enumerate(orders):
+                for n in nths:
+                    steps = [_exh_step(o) for o in h["pre"]] + [{"op": "par", "ops": [_exh_step(o) for o in par]}]
+                    if probe:
+                        steps.append({"op": "probe"})
+                    steps += [rd, {"op": "flush"}, {"op": "fsync"}, rd, {"op": "reopen"}, rd]
+                    out.append(S.mk(f"{tag}-{v}-{_exh_code(h['pre'])}_{_exh_code(par)}-n{n}", geo, imgs[v], steps, sample_flag=True,
+                                    sched={"policy": "park", "seed": n}))
     return out
 
 
@@ -837,6 +873,7 @@ def check_C01(chk):
     scens += fam_allocstress(chk.tier, chk.seed, "c01a", 6 if chk.tier == "quick" else 60)
     scens += fam_exhaustive(chk.tier, "c01e", seed=chk.seed)
     scens += fam_exhaustive_par(chk.tier, "c01p", seed=chk.seed, seeds=(1, 2))
+    scens += fam_park(chk.tier, "c01k", variants=("plain", "backing"), seed=chk.seed)
     scens += fam_regress()
     res, st = Q.run_batch(scens, chk.wd, known=chk.known_tags(), par=12)
     chk.consume(res, st, props=("C01",))
@@ -854,8 +891,9 @@ def check_C02(chk):
     scens += fam_backing(chk.tier, chk.seed, "c02b", n // 2, 18)
     scens += fam_wide(chk.tier, chk.seed, "c02w", 8 if chk.tier == "quick" else 80)
     scens += fam_exhaustive(chk.tier, "c02e", seed=chk.seed)
-    scens += fam_exhaustive_par(chk.tier, "c02p", seed=chk.seed, seeds=(1, 2))
+    scens += fam_exhaustive_par(chk.tier, "c02p", seed=chk.seed, seeds=(1, 2), probe=True, sweep=4 if chk.tier == "quick" else 20)
     scens += fam_outage(chk.tier, chk.seed, "c02o", 6 if chk.tier == "quick" else 40)
+    scens += fam_park(chk.tier, "c02k", variants=("plain", "special"), seed=chk.seed)
     scens += fam_regress()
     res, st = Q.run_batch(scens, chk.wd, known=chk.known_tags(), par=12)
     chk.consume(res, st, props=("C02",))
@@ -876,6 +914,7 @@ def check_C03(chk):
     scens += fam_exhaustive(chk.tier, "c03e", seed=chk.seed)
     scens += fam_exhaustive_par(chk.tier, "c03p", seed=chk.seed, seeds=(1, 2))
     scens += fam_growth(chk.tier, chk.seed, "c03g", 8 if chk.tier == "quick" else 48)
+    scens += fam_park(chk.tier, "c03k", variants=("plain", "special"), seed=chk.seed)
     scens += fam_regress()
     res, st = Q.run_batch(scens, chk.wd, known=chk.known_tags(), par=12)
     chk.consume(res, st, props=("C03",))
@@ -912,6 +951,7 @@ def check_C04(chk):
     scens += fam_conc_disjoint(chk.tier, chk.seed, "c04c", 40 if chk.tier == "quick" else 600)
     scens += fam_exhaustive(chk.tier, "c04e", seed=chk.seed)
     scens += fam_exhaustive_par(chk.tier, "c04p", seed=chk.seed)
+    scens += fam_park(chk.tier, "c04k", variants=("plain", "backing"), seed=chk.seed)
     scens += fam_regress()
     res, st = Q.run_batch(scens, chk.wd, mode="crash", known=chk.known_tags(), par=14)
     chk.consume(res, st, props=("C04",))
@@ -933,6 +973,7 @@ def check_C05(chk):
     scens += fam_conc_disjoint(chk.tier, chk.seed, "c05c", 40 if chk.tier == "quick" else 600)
     scens += fam_exhaustive(chk.tier, "c05e", seed=chk.seed)
     scens += fam_exhaustive_par(chk.tier, "c05p", seed=chk.seed)
+    scens += fam_park(chk.tier, "c05k", variants=("plain", "backing"), seed=chk.seed)
     scens += fam_regress()
     res, st = Q.run_batch(scens, chk.wd, mode="crash", known=chk.known_tags(), par=14)
     chk.consume(res, st, props=("C05",))
@@ -950,6 +991,7 @@ def check_C06(chk):
     scens += fam_conc(chk.tier, chk.seed, "c06b", n // 4, backing=True)
     scens += fam_cowread(chk.tier, chk.seed, "c06r", 30 if chk.tier == "quick" else 500)
     scens += fam_exhaustive_par(chk.tier, "c06p", seed=chk.seed, seeds=(1, 2, 3))
+    scens += fam_park(chk.tier, "c06k", seed=chk.seed)
     scens += fam_regress()
     res, st = Q.run_batch(scens, chk.wd, known=chk.known_tags(), par=14)
     chk.consume(res, st, props=("C06", "C01", "C02"))
@@ -1082,6 +1124,7 @@ def check_C10(chk):
     scens += fam_cowread(chk.tier, chk.seed, "c10r", 40 if chk.tier == "quick" else 600)
     scens += fam_exhaustive(chk.tier, "c10e", seed=chk.seed)
     scens += fam_exhaustive_par(chk.tier, "c10p", seed=chk.seed, seeds=(1, 2))
+    scens += fam_park(chk.tier, "c10k", variants=("backing", "special", "backing_short"), seed=chk.seed)
     scens += fam_regress()
     res, st = Q.run_batch(scens, chk.wd, known=chk.known_tags(), par=14)
     chk.consume(res, st, props=("C10", "C01", "C02", "C03", "PANIC"))
@@ -1135,6 +1178,7 @@ def check_C11(chk):
     scens += fam_wide(chk.tier, chk.seed, "c11w", 10 if chk.tier == "quick" else 100)
     scens += fam_exhaustive(chk.tier, "c11e", seed=chk.seed)
     scens += fam_exhaustive_par(chk.tier, "c11p", seed=chk.seed, seeds=(1, 2))
+    scens += fam_park(chk.tier, "c11k", variants=("plain", "backing", "backing_short"), seed=chk.seed)
     scens += fam_regress()
     res, st = Q.run_batch(scens, chk.wd, known=chk.known_tags(), par=14)
     chk.consume(res, st, props=("C11", "C01", "C02", "C03", "C07", "PANIC"))
@@ -1328,6 +1372,7 @@ def check_C07(chk):
         s_["sched_sweep"] = 40 if chk.tier == "quick" else 100
     scens += gr
     scens += fam_exhaustive_par(chk.tier, "c07p", seed=chk.seed, sweep=3 if chk.tier == "quick" else 5)
+    scens += fam_park(chk.tier, "c07k", seed=chk.seed)
     scens += fam_regress()
     res, st = Q.run_batch(scens, chk.wd, known=chk.known_tags(), par=14)
     chk.consume(res, st, props=("C07", "PANIC"))
@@ -1357,7 +1402,8 @@ def check_C18(chk):
         s["sample_flag"] = True
     scens += seqs
     scens += fam_exhaustive(chk.tier, "c18e", seed=chk.seed)
-    scens += fam_exhaustive_par(chk.tier, "c18p", seed=chk.seed, seeds=(1, 2, 3))
+    scens += fam_exhaustive_par(chk.tier, "c18p", seed=chk.seed, seeds=(1, 2, 3), probe=True, sweep=10 if chk.tier == "quick" else 40)
+    scens += fam_park(chk.tier, "c18k", seed=chk.seed)
     scens += fam_regress()
     res, st = Q.run_batch(scens, chk.wd, known=chk.known_tags(), par=14)
     chk.consume(res, st, props=("C18",))
@@ -1534,6 +1580,7 @@ def check_C08(chk):
     more = fam_growth(chk.tier, chk.seed, "c08g", 8 if chk.tier == "quick" else 48)
     more += fam_growth(chk.tier, chk.seed, "c08gc", 8 if chk.tier == "quick" else 48, conc=True)
     more += fam_exhaustive_par(chk.tier, "c08p", seed=chk.seed, seeds=(1, 2), variants=("plain", "special", "backing"))
+    more += fam_park(chk.tier, "c08k", variants=("plain", "special"), seed=chk.seed)
     for s_ in more:
         s_["sample_ram"] = True
     scens += more
